@@ -80,7 +80,7 @@ type Hooks struct {
 	// Split returns where to split a write of n bytes (0 or n: no split).
 	Split func(n int) int
 	// Read runs ahead of read-side operations that a concurrent writer can race
-	// with: "readdir" (path: the directory) and "info" (path: the entry whose
+	// with or that may fail: "readfile", "stat", "lstat", "readdir" (path: the directory) and "info" (path: the entry whose
 	// attributes are about to be read through a DirEntry of an earlier listing).
 	// The harness may change the file system inside the hook (another process
 	// working in the directory at that instant); a non-nil error is returned to
@@ -121,9 +121,36 @@ func do(kind, path, path2 string, n int, f func() error) error {
 
 // --- read-only pass-through -----------------------------------------------------
 
-func ReadFile(name string) ([]byte, error)       { return os.ReadFile(name) }
-func Stat(name string) (FileInfo, error)         { return os.Stat(name) }
-func Lstat(name string) (FileInfo, error)        { return os.Lstat(name) }
+// readHook gives the harness a look at (and a veto over) a read-side operation.
+func readHook(kind, path string) error {
+	if h := hooks; h != nil && h.Read != nil {
+		if err := h.Read(kind, path); err != nil {
+			return &os.PathError{Op: kind, Path: path, Err: err}
+		}
+	}
+	return nil
+}
+
+func ReadFile(name string) ([]byte, error) {
+	if err := readHook("readfile", name); err != nil {
+		return nil, err
+	}
+	return os.ReadFile(name)
+}
+
+func Stat(name string) (FileInfo, error) {
+	if err := readHook("stat", name); err != nil {
+		return nil, err
+	}
+	return os.Stat(name)
+}
+
+func Lstat(name string) (FileInfo, error) {
+	if err := readHook("lstat", name); err != nil {
+		return nil, err
+	}
+	return os.Lstat(name)
+}
 func UserCacheDir() (string, error)              { return os.UserCacheDir() }
 func UserConfigDir() (string, error)             { return os.UserConfigDir() }
 
